@@ -484,7 +484,7 @@ func TestGenerated(t *testing.T) {
 func TestCorpora(t *testing.T) {
 	const test = "Corpora"
 	hx.Rule(test, "repository testdata and llvm-stress/opt programs: same identity oracle")
-	for i, f := range corpus.RepoTestdata() {
+	for i, f := range corpus.Fixed() {
 		if hx.Mine(i) {
 			hx.Eval(1)
 			if checkText(t, test, f.Name, f.Text, false) {
